@@ -23,7 +23,7 @@ META = {
                 tech='sibling cross-check over resolved callees, term tables, symbolic writer/reader composition over polynomial normal forms'),
     'C05': dict(text=GEN % 'documented axis orders as rotation words, order-name tables agree, unit/flip/order threading, singular-branch agreement, term-by-term composition of tr2rpy/tr2eul with the rpy2r/eul2r words, double-cover parity of the quaternion accessors (R12, R10, R8, R16, R19)', sec='4 C05',
                 tech='rotation-word abstract evaluation, writer/reader composition over polynomial normal forms (no evaluation, no solver), option-threading dataflow, parity analysis'),
-    'C06': dict(text=GEN % 'lift-multiply-project and sandwich routes, operand integrity in the array branches, pose-left/point-right operand roles of every @, no hidden state in the classes involved (R16, R9, R2, R1)', sec='4 C06',
+    'C06': dict(text=GEN % 'lift-multiply-project and sandwich routes, operand integrity in the array branches, pose-left/point-right operand roles of every @, the unit-dual-quaternion route composed in the non-commutative quaternion algebra equals r p r~ + t, no hidden state in the classes involved (R16, R22, R9, R2, R1)', sec='4 C06',
                 tech='routing patterns over resolved calls, reaching-definition check of operands'),
     'C07': dict(text=GEN % 'predicate atoms (R4), validation dominates every store into data (R5), constructors define state on every exit (R3), no silent None (R2)', sec='4 C07',
                 tech='pattern-matched predicate atoms, must-pass-through dataflow on the CFG, typestate of constructors'),
@@ -49,7 +49,7 @@ META = {
                 tech='interprocedural may-alias / effect (purity) dataflow analysis'),
     'C18': dict(text=GEN % 'twist constructor/accessor tables, unit conversion reaches every use of theta in exp, reflected scalar product (R16, R10, R6, R8)', sec='4 C18',
                 tech='term tables, must-pass-through (getunit) dataflow, operator table'),
-    'C19': dict(text=GEN % 'one moment convention and one plane convention across writers and readers, sign-invariance of the parallelism test, point/column branch agreement with the caller tolerance, no hidden state (R16, R10r, R9)', sec='4 C19',
+    'C19': dict(text=GEN % 'one moment convention and one plane convention across writers and readers, sign-invariance of the parallelism test, point/column branch agreement with the caller tolerance, line-plane intersection point and parameter and line-line distance composed with the class conventions in component-wise vector algebra, no hidden state (R16, R23, R10r, R9)', sec='4 C19',
                 tech='term tables with sign (parity) analysis under negation of an operand'),
     'C20': dict(text=GEN % 'typed guards dominate the arithmetic, cross/adjoint/inertia tables, constructor form tests on the raw argument, no hidden state in the pose/twist classes whose adjoint is applied (R16, R7, R9)', sec='4 C20',
                 tech='guard dominance, literal 6x6 table comparison, operator table'),
